@@ -2,7 +2,7 @@
 import json, os, re, struct
 from hypothesis import strategies as st
 from vlib.runner import Part, Violation
-from vlib import gen, refmodel as R, trace as T, tools, evdoc
+from vlib import judge, gen, refmodel as R, trace as T, tools, evdoc
 
 ID = "C18"
 VARIANTS = ["plain"]
@@ -182,6 +182,7 @@ def enum_listed(ctx):
         if d.model == "K":
             yield {"mcv": d.mcv, "seed": 1, "state": "paused"}
             yield {"mcv": d.mcv, "seed": 2, "state": "cooling"}
+        yield {"mcv": d.mcv, "seed": 0, "repeat": 130 if ctx.tier == "quick" else 1100}
 
 
 def gen_values(decl, seed):
@@ -237,37 +238,46 @@ def run_listed(case, ctx):
         evs.append(T.plain("OHp", clk + 1))
         closing = ["OHr"]
     clk += 3
-    for x in pre:
+    for _rep in range(case.get("repeat", 1)):
+        for x in pre:
+            clk += 5
+            evs.append(mk(x, clk))
         clk += 5
-        evs.append(mk(x, clk))
-    clk += 5
-    if mcv == "OHx":
-        probe = T.OHx(clk, 0, 3, 0xabc)
-    elif mcv == "OHe":
-        probe = None
-    else:
-        vals = args if args is not None else gen_values(d, 0)
-        pl = encode_args(d, vals) if d.args else b""
-        probe = T.jumbo(mcv, clk, pl) if d.jumbo else T.ev(mcv, clk, pl.hex())
-    if probe:
-        evs.append(probe)
-    for x in suf:
-        clk += 5
-        evs.append(mk(x, clk))
+        if mcv == "OHx":
+            probe = T.OHx(clk, 0, 3, 0xabc)
+        elif mcv == "OHe":
+            probe = None
+        else:
+            vals = args if args is not None else gen_values(d, 0)
+            pl = encode_args(d, vals) if d.args else b""
+            probe = T.jumbo(mcv, clk, pl) if d.jumbo else T.ev(mcv, clk, pl.hex())
+        if probe:
+            evs.append(probe)
+        for x in suf:
+            clk += 5
+            evs.append(mk(x, clk))
     for x in closing:
         clk += 5
         evs.append(T.plain(x, clk))
     evs.append(T.plain("OHe", clk + 5))
     s = {"loom": "n.0", "pid": 1, "tid": 1, "app": 1, "cpus": numbering, "require": req, "events": evs,
          "extra": extra}
+    if case.get("repeat", 1) > 1:
+        # the same legal use many times over: asserted when the reference model says that the
+        # repetition itself is legal (creating the same task twice, say, is not)
+        if judge.model_verdict_u({"streams": [s]}, lint=True)[0] != "accept":
+            return {"discard": True, "cls": ["repetition-not-legal"]}
     dd = ctx.newdir()
     try:
         T.write_trace({"streams": [s]}, dd)
         r = tools.emu(b, dd, ("-l",))
         if not r.ok:
-            raise Violation("listed event %s rejected in its legal context %s: %s" % (mcv, [e[0] for e in evs], r.brief()))
+            raise Violation("listed event %s rejected in its legal context %s%s: %s" % (
+                mcv, [e[0] for e in evs][:12], " (the use repeated %d times)" % case["repeat"] if case.get("repeat", 1) > 1 else "", r.brief()))
     finally:
         ctx.rmdir(dd)
+    if case.get("repeat", 1) > 1:
+        return {"nt": True, "cls": ["listed:repeated"], "key": "rep:" + mcv}
     # decoding with generated argument values
     vals = gen_values(d, case["seed"])
     pl = encode_args(d, vals) if d.args else b""
